@@ -14,8 +14,9 @@ side X ended:
   - no call is pending at the end (after one more hour of virtual time: the hang detector);
   - every call of side X returns by max(its start, T_dead(X)) (+ 5 ms for the settle granularity): pending
     calls are released when the dispatcher ends, later calls return without waiting;
-  - a call that was pending across, or started after, T_dead(X) returns an error if it is a send-like call
-    (send, remote call, write, blocked sender); a receive-like call returns an error or a value that had been
+  - a call that was pending across, or started after, T_dead(X) (by the order of the trace lines) returns an error if
+    it is a send-like call (send, remote call, write, blocked sender; success only in the very instant of T_dead: an
+    answer that was delivered just before); a receive-like call returns an error or a value that had been
     delivered before; a clean end of stream is accepted only after the error has been reported on that handle
     (or when the value carrying the channel halves was never sent: the harness dropped the halves);
   - no failure is reported as a data error (serialisation / deserialisation / size);
@@ -46,6 +47,9 @@ structure Call where
   t0 : Nat
   t1 : Option Nat := none
   res : List String := []
+  /-- the call line / the ret line came after the `run` line of the call's side -/
+  startedDead : Bool := false
+  returnedDead : Bool := false
 
 inductive KindClass where
   | sendLike | recvLike | unitLike | other
@@ -73,6 +77,9 @@ structure USim where
   gots : AL (List Nat) := []
   pendingEnd : String := "-"
   ended : Bool := false
+  /-- items delivered by the wires after the first fault fired -/
+  rxAfterFault : Nat := 0
+  deliveredBefore : Nat := 0
   c06 : Bool := true
   judged : Nat := 0
   out : List String := []
@@ -150,7 +157,8 @@ def USim.finish (s : USim) (line : Nat) : USim :=
   | some (kind, tf) =>
     let ta := (s.timeouts.get? "A").getD 0
     let tb := (s.timeouts.get? "B").getD 0
-    let bound := tf + ta + tb + 20
+    -- every item that was still delivered after the fault re-armed a receive timer (wires with latency: one per ms)
+    let bound := tf + ta + tb + 20 + s.rxAfterFault
     -- dispatchers
     let s := connected.foldl (fun s x =>
       match s.dead.get? x with
@@ -174,8 +182,8 @@ def USim.finish (s : USim) (line : Nat) : USim :=
       | some t1, some (_, td) =>
         let s := if t1 > (max c.t0 td) + 5 then
             s.fail line s!"call {c.k} ({c.kind} on {c.side}) started at {c.t0}, its dispatcher ended at {td}, it returned only at {t1}" else s
-        let later := c.t0 > td
-        let across := c.t0 < td && t1 ≥ td
+        let later := c.startedDead
+        let across := !c.startedDead && c.returnedDead
         if !(later || across) then s else
         let s := { s with judged := s.judged + 1 }
         let isErr := c.res.head? == some "err"
@@ -183,7 +191,9 @@ def USim.finish (s : USim) (line : Nat) : USim :=
             s.fail line s!"call {c.k} ({c.kind} on {c.side}) reports the connection failure as a data error: {" ".intercalate c.res}" else s
         match classOf c.kind with
         | .sendLike =>
-          if isErr then s else
+          -- success is possible only for a call whose completion was already under way when the dispatcher ended
+          -- (an answer delivered in the same instant): it returns in that very instant
+          if isErr || (across && t1 ≤ td) then s else
           s.fail line s!"call {c.k} ({c.kind} on {c.side}) {if later then "started after" else "was pending when"} its dispatcher ended and returned '{" ".intercalate c.res}' instead of an error"
         | .recvLike =>
           if isErr || c.res.head? == some "ok" || c.res.head? == some "gone" then s
@@ -229,12 +239,21 @@ def stepLine (a : UAcc) (n : Nat) (line : String) : IO UAcc := do
     let t := (kvNat rest "t").getD 0
     return { a with sim := { s with dead := if (s.dead.get? x).isSome then s.dead else s.dead.set x (cls, t) } }
   | "call" :: k :: x :: kind :: rest =>
-    let c : Call := { k := k, side := x, kind := kind, ch := (kvGet rest "ch").getD "-", t0 := (kvNat rest "t").getD 0 }
+    let c : Call := { k := k, side := x, kind := kind, ch := (kvGet rest "ch").getD "-", t0 := (kvNat rest "t").getD 0,
+                      startedDead := (s.dead.get? x).isSome }
     return { a with sim := { s with calls := s.calls ++ [c] } }
   | "ret" :: k :: rest =>
     let t := (kvNat rest "t").getD 0
     let res := rest.filter (fun w => !w.startsWith "t=")
-    return { a with sim := { s with calls := s.calls.map (fun c => if c.k == k && c.t1.isNone then { c with t1 := some t, res := res } else c) } }
+    return { a with sim := { s with calls := s.calls.map (fun c =>
+      if c.k == k && c.t1.isNone then { c with t1 := some t, res := res, returnedDead := (s.dead.get? c.side).isSome } else c) } }
+  | ["wires", wa, wb] =>
+    -- `wires A=<sent>/<delivered> B=<sent>/<delivered>`: deliveries since the last line seen before the fault bound
+    -- what the wires still handed over after it
+    let dl (w : String) : Nat := (((w.splitOn "/").getD 1 "0").toNat?).getD 0
+    let d := dl wa + dl wb
+    return { a with sim := if s.fault.isSome then { s with rxAfterFault := d - s.deliveredBefore }
+                           else { s with deliveredBefore := d } }
   | ["put", ch, snd, v] =>
     let v := v.toNat?.getD 0
     return { a with sim := { s with puts := s.puts.set ch (((s.puts.get? ch).getD []) ++ [(snd, v)]) } }
